@@ -4,6 +4,7 @@ import Stingray.Driver.C16
 import Stingray.Driver.Decode
 import Stingray.Driver.Layout
 import Stingray.Driver.Value
+import Stingray.Driver.Copybook
 /-!
 Line protocol driver: `lake env lean --run Driver.lean < requests > answers`.
 One request per line: `<family> <op> <args…>` separated by single spaces; one answer line each.
@@ -24,6 +25,7 @@ def dispatch (st : DState) (line : String) : DState × String :=
   | "DEC" :: rest => (st, Dec.handle st.tables rest)
   | "LAY" :: rest => (st, Lay.handle rest)
   | "VAL" :: rest => (st, Value.handle st.tables rest)
+  | "CPY" :: rest => (st, Cpy.handle rest)
   | _ => (st, "bad-op")
 
 partial def loop (h : IO.FS.Stream) (out : IO.FS.Stream) (st : DState) : IO Unit := do
